@@ -64,18 +64,18 @@ the table names the check that reports them).
 
 ### 9.1 Benign changes (false-alarm round)
 
-The converse experiment: eighty changes that PRESERVE their property (`benign/<id>-<K|L|P|Q>/`, four per property, two rounds; the second round asked for changes an over-fitted checker would trip over: token shapes, wire encodings, store layouts, call sequences, texts). Fresh
+The converse experiment: eighty changes written to PRESERVE their property (`benign/<id>-<K|L|P|Q>/`, four per property, two rounds; seventy-nine are kept - the eightieth, C14-Q, preserved C14 but broke C07 and is listed below as a true positive; the second round asked for changes an over-fitted checker would trip over: token shapes, wire encodings, store layouts, call sequences, texts). Fresh
 sub-agents were given only the property text and a scratch worktree and asked to change as much as possible of what the
 statement does not pin down - control flow, hint / debug texts, the legal error chosen where several apply, the order of
 independent storage calls, additional storage reads, stricter validation, other data structures and locks in the reference
 store, token lengths, extra headers and JSON members - with an argument, clause by clause, why the property still holds.
-`./benign_run.sh` applies each one to a scratch worktree of `/repo` and runs ALL twenty quick checks against it (1600 check
+`./benign_run.sh` applies each one to a scratch worktree of `/repo` and runs ALL twenty quick checks against it (1580 check
 runs); any exit other than 0 is an alarm on code where the property holds. Alarms found, all corrected in the machinery
 (section 8 has the details), none by loosening a check that was right:
 
 %s
 
-After the corrections all eighty changes are silent under all twenty checks (patches that later `fix:` commits collided with were re-cut against HEAD with the fixes kept).
+After the corrections all seventy-nine changes are silent under all twenty checks (`benign/RESULTS.md`, written by `benign_results.py` from the last run) (patches that later `fix:` commits collided with were re-cut against HEAD with the fixes kept).
 """ % (len(rows), own_n, sum(1 for r in rows if "**not detected**" not in r), "\n".join(rows), open('/verif/benign/ALARMS.md').read().strip())
 p = '/verif/DESIGN.md'
 s = open(p).read()
